@@ -3,7 +3,8 @@
 keep it under /verif/seeded/<PROP>-<letter>/ and record which checks catch it."""
 import json, os, subprocess, sys, shutil
 prop, x = sys.argv[1], sys.argv[2]
-sd = f"/tmp/seed-{prop}"
+sd = os.environ.get("SEED_DIR_FMT", "/tmp/seed-{prop}").format(prop=prop)
+dest_letter = os.environ.get("DEST_LETTER", x)
 props = None
 if "--props" in sys.argv:
     props = sys.argv[sys.argv.index("--props") + 1]
@@ -15,7 +16,7 @@ suite_ok = " 0 failed" in parts[2] and not parts[2].strip().endswith("passed  fa
 demo_fails = ("FAILED" in parts[3]) or ("error:" in parts[3]) or ("signal" in parts[3]) or ("ERROR: AddressSanitizer" in parts[3].split("unchanged tree")[0])
 if "unchanged-asan:" in parts[3] and "unchanged-asan: test result: ok" not in parts[3]:
     ok_unchanged = False
-dest = f"/verif/seeded/{prop}-{x}"
+dest = f"/verif/seeded/{prop}-{dest_letter}"
 if not (ok_unchanged and suite_ok and demo_fails):
     print(f"NOT KEPT: unchanged_ok={ok_unchanged} suite_ok={suite_ok} demo_fails={demo_fails}")
     sys.exit(1)
@@ -27,7 +28,7 @@ try:
     notes = json.load(open(f"{sd}/notes.json")).get(x, {})
 except Exception as e:
     notes = {"note": f"notes.json unreadable: {e}"}
-default = sorted(set([prop, "C01", "C02", "C03", "C04", "C05", "C06", "C08"]))
+default = [prop] if os.environ.get("TARGET_ONLY") else sorted(set([prop, "C01", "C02", "C03", "C04", "C05", "C06", "C08"]))
 plist = props or ",".join(default)
 r = subprocess.run(["/verif/tools/seedtest.py", f"{dest}/patch.diff", "--props", plist, "--skip-suite"], capture_output=True, text=True)
 res = json.loads(r.stdout.strip().splitlines()[-1])
